@@ -2,6 +2,7 @@ import SnootyVerif.Proofs.Indent
 import SnootyVerif.Proofs.Sections
 import SnootyVerif.Proofs.Escape
 import SnootyVerif.Proofs.DocLang
+import SnootyVerif.Proofs.Visitor
 
 /-!
 # C03 — Parse fidelity: the AST mirrors the document's structure, text and lines
@@ -444,5 +445,31 @@ example : nodesText (inlNodes [.text "a", .esc "*", .text "b", .sp, .emph "em", 
     "a*b em\nLabel x\\y" := by decide
 
 end doclang
+
+/-! ## nesting and reading order are what the visitor's node stack builds
+
+The AST is assembled by `JSONVisitor` with a push/pop stack. On the model of that stack (`Model/Visitor.lean`; tied to
+the code by the path translator `Gen/VisitPaths.lean`, theorem `C01.visit_paths_balanced`, and by the recorded walks of
+`./check C01`), for EVERY docutils tree: the node built for a docutils node holds exactly what its subtree contributes, in
+document order; nodes the visitor skips contribute nothing, transparent wrappers contribute what their children do. -/
+section visitor
+open SnootyVerif.Visitor
+
+/-- nesting mirrors the document: the walk equals the stack-free specification -/
+theorem visitor_nesting (d : DNode) (top : T) (rest : List T) (hb : balanced d = true) (ht : termsOk top.kind d = true) :
+    walk (top :: rest) d = .ok (attachAllT top (emit d) :: rest) := walk_spec d top rest hb ht
+
+/-- reading order: nothing is reordered or duplicated -/
+theorem visitor_reading_order (d : DNode) (h : plain d = true) : (idsL (emit d)).Sublist d.ids := emit_ids_sublist d h
+
+/-- nothing is invented -/
+theorem visitor_ids_from_doctree (d : DNode) (i : Nat) (h : i ∈ idsL (emit d)) : i ∈ d.ids := emit_ids_mem d i h
+
+/-- two paragraphs under a section, the second followed by a skipped comment: ids in document order -/
+example : (emit (.mk 1 1 .normal .parent false
+    [.mk 2 1 .normal .parent false [.mk 3 1 .normal .leaf false []], .mk 4 0 .skipNode .parent false [],
+     .mk 5 1 .normal .parent false [.mk 6 1 .normal .leaf false []]])).map T.ids = [[1, 2, 3, 5, 6]] := by decide
+
+end visitor
 
 end SnootyVerif.C03
